@@ -110,6 +110,14 @@ func (gsd *Demux) newConnLocked(id string) *demuxConn {
 			case rpc := <-c.w:
 				err := gsd.rw.Write(gsd.ctx, rpc)
 				if err != nil {
+					// Nobody would take this connection's writes any more: fail it,
+					// so that its reads and writes return and its owner finds out.
+					gsd.conns.Lock()
+					if gsd.conns.value[id] == c {
+						delete(gsd.conns.value, id)
+						close(c.done)
+					}
+					gsd.conns.Unlock()
 					return
 				}
 			}
